@@ -149,6 +149,20 @@ def written_object(data):
     return "other", None
 
 
+def fresh_encoding(we, evs):
+    """Does WRITE event `we` send what an encode() on this very path produced: the value encode() returned, or the object's .encoded buffer
+    read after a successful encode() of the same object earlier on the path (encode() stores there what it returns)?"""
+    how, obj = written_object(we.a["data"])
+    if how == "encres":
+        return True
+    if how == "encoded" and obj is not None and we in evs:
+        before = evs[:evs.index(we)]
+        encs = [i for i, e in enumerate(before) if e.kind == "ENCODE" and e.a.get("ok") and e.a["obj"] == obj]
+        if encs and not any(e.kind == "SETATTR" and e.a["obj"] == obj and e.a["field"] == "encoded" for e in before[encs[-1]:]):
+            return True
+    return False
+
+
 class Types:
     """A2: classes of registry elements and timer parameters, from insertion / arming sites."""
 
